@@ -645,6 +645,7 @@ impl<W: WorldSpec> Engine<W> {
                 am.cap = cap;
                 am.slot_gens.clear();
                 am.ver_obs = 0;
+                am.pub_ver = None;
                 am.preset = true;
                 #[cfg(feature = "events")]
                 {
@@ -760,6 +761,7 @@ impl<W: WorldSpec> Engine<W> {
         am.ver = av as u64;
         am.ver_obs = av as u64;
         am.rem_at_obs = am.removals;
+        am.pub_ver = None;
         am.slot_gens.clear();
         self.stats.inc("preset_generations");
         rt::h(&[0x94E5, ai as u64, sg as u64, av as u64]);
